@@ -1754,6 +1754,7 @@ class IndexHierarchyAsType:
         return container.__class__._from_type_blocks(
                 blocks,
                 index_constructors=index_constructors,
+                name=container._name,
                 own_blocks=True
                 )
 
